@@ -80,6 +80,17 @@ theorem C20_find_is_observed (cfg : Cfg) (σ : State) (s : Sid) (o : Obj) (a : A
     (((step cfg σ s (.find o a v)).1.sess s).objs o).obs a = some v :=
   find_obs cfg σ s o a v hres hw hvol ha
 
+/-- … and every object returned by `select(x for x in E if x.a == v)` (each row of the table the connection sees with
+    `a = v`; optionally `.for_update()`) gets `v` recorded as the observation of `a` (`_fetch_objects(..., used_attrs)` →
+    `_set_rbits`), after any schedule -/
+theorem C20_select_is_observed (cfg : Cfg) (store0 : Obj → Attr → Val) (sched : List (Sid × Action)) (s : Sid) (a : Attr)
+    (v : Val) (fu : Bool) (m : Option Val) (o : Obj)
+    (hres : (step cfg (after cfg store0 sched) s (.select a v fu)).2.res = .ok m)
+    (ho : o ∈ cfg.objs) (hview : view (after cfg store0 sched) s o a = v)
+    (hw : (((after cfg store0 sched).sess s).objs o).wbits a = false) (hvol : cfg.volatile a = false) (ha : a ∈ cfg.attrs) :
+    (((step cfg (after cfg store0 sched) s (.select a v fu)).1.sess s).objs o).obs a = some v :=
+  select_obs cfg _ s a v fu m o (C20_invariant cfg store0 sched) hres ho hview hw hvol ha
+
 /-- the ghost `written` records every assignment `obj.a = v` -/
 theorem C20_write_is_recorded (cfg : Cfg) (σ : State) (s : Sid) (o : Obj) (a : Attr) (v : Val)
     (hres : (step cfg σ s (.write o a v)).2.res = .ok none) :
@@ -256,6 +267,10 @@ def modelExempt (sopt fu : Bool) : Bool :=
     attribute of the object is assigned -/
 theorem C20_bridge_get : getRows.length = 8 ∧ ∀ p ∈ getRows, modelGet p.1.1 p.1.2.1 = p.2 := by decide
 
+/-- the read mark of a query criterion (`markOne`, which applies `ObjSt.read`) = the real `EntityMeta._set_rbits`: the bit is
+    set unless the attribute is assigned or volatile, and the read bit of another attribute is kept -/
+theorem C20_bridge_set_rbits : markRowsT.length = 8 ∧ ∀ p ∈ markRowsT, (modelGet p.1.1 p.1.2.1, p.1.2.2) = p.2 := by decide
+
 /-- `ObjSt.write` = the real `Attribute.__set__` on both bits -/
 theorem C20_bridge_set : setRows.length = 4 ∧ ∀ p ∈ setRows, modelSet p.1.1 p.1.2 = p.2 := by decide
 
@@ -323,6 +338,18 @@ example : (step cfgAll (after cfgAll ones []) 1 (.find 1 0 1)).2.res = .ok (some
     ∧ (((after cfgAll ones [(1, .find 1 0 1)]).sess 1).objs 1).obs 0 = some 1
     ∧ (step cfgAll (after cfgAll ones [(1, .find 1 0 1), (1, .write 1 1 61), (0, .get 1 false), (0, .write 1 0 50), (0, .close), (0, .close)]) 1 .close).2.res
         = .optimisticCheckError := by decide
+
+-- a query criterion counts as a read of every returned object: both rows observed, the stale UPDATE of row 2 is refused
+def cfgTab : Cfg := { cfgAll with objs := [1, 2] }
+example : (step cfgTab (after cfgTab ones []) 1 (.select 0 1 false)).2.res = .ok (some 6)
+    ∧ (((after cfgTab ones [(1, .select 0 1 false)]).sess 1).objs 2).obs 0 = some 1
+    ∧ (step cfgTab (after cfgTab ones [(1, .select 0 1 false), (1, .write 2 1 61), (0, .get 2 false), (0, .write 2 0 50),
+        (0, .close), (0, .close)]) 1 .close).2.res = .optimisticCheckError := by decide
+
+-- Query.for_update: the rows are locked (another writer waits); the exemption ends at commit, after which a stale UPDATE is refused
+example : (step cfgTab (after cfgTab ones [(1, .select 0 1 true), (0, .get 1 false), (0, .write 1 0 50)]) 0 .flush).2.res = .blocked
+    ∧ (step cfgTab (after cfgTab ones [(1, .select 0 1 true), (1, .commit), (0, .get 1 false), (0, .write 1 0 50), (0, .close),
+        (0, .close), (1, .write 1 1 61)]) 1 .close).2.res = .optimisticCheckError := by decide
 
 -- a session with two transactions: what it read in the first is still checked by the UPDATE of the second
 example : (step cfgAll (after cfgAll ones [(1, .get 1 false), (1, .read 1 0), (1, .write 1 1 61), (1, .commit), (1, .commit),
